@@ -21,13 +21,19 @@ OPAQUE = None
 
 
 class Flow:
-    def __init__(self, func: ast.FunctionDef, inline=None, _depth=0):
+    def __init__(self, func: ast.FunctionDef, inline=None, _depth=0, module=None, assume_defaults=(), outer=None):
         """`inline`: optional callable (resolved ast.Call) -> ast.FunctionDef | None naming helper functions whose calls are to be looked
         through (an "extract method" refactoring then changes nothing): the call stands for the helper's return value with the arguments
         substituted, and the helper's stores are replayed at the call."""
         self.func = func
         self.inline = inline if _depth < 4 else None
         self._depth = _depth
+        self.module = module
+        # `module`: names bound at module level to simple constants (private constants replacing literals) stand for those constants;
+        # NamedTuple classes of the module are known by their fields.  `assume_defaults`: parameters (names, or True for all) that the callers
+        # of interest do not pass: they stand for their default values.
+        self.tuples = namedtuples(module) if module is not None else {}
+        _KNOWN_TUPLES.update(self.tuples)
         self.inlined_stores = {}      # id(stmt) -> [(target text, kind, payload)] contributed by inlined helpers
         self.inlined = {}             # id(stmt) -> (sub-Flow, binding) of the helper call the statement makes
         self.assigned = {}            # id(Assign stmt) -> the resolved value it assigns (helper calls looked through)
@@ -39,7 +45,25 @@ class Flow:
         self.env_before = {}          # id(stmt) -> {name: resolved ast or OPAQUE}
         self.default_of = {}          # parameter -> resolved default expression (from `if p is None: p = e`)
         self.order = []               # statements in execution (source) order, flattened
-        self.end_env = self._block(func.body, {})
+        env0 = dict(module_constants(module)) if module is not None else {}
+        if outer is not None:
+            # a nested function (closure): free names mean what they mean in the enclosing function where it is defined
+            oflow, def_node = outer
+            env0.update({k: v for k, v in oflow.env_before.get(id(def_node), {}).items() if v is not OPAQUE})
+            assigned_inside = self._assigned_names(func.body)
+            for k in assigned_inside:
+                env0.pop(k, None)
+        for p_ in self.params:
+            env0.pop(p_, None)
+        if assume_defaults:
+            pos = func.args.posonlyargs + func.args.args
+            pairs = list(zip(pos[len(pos) - len(func.args.defaults):], func.args.defaults)) + \
+                [(a, d) for a, d in zip(func.args.kwonlyargs, func.args.kw_defaults) if d is not None]
+            for a, d in pairs:
+                if (assume_defaults is True or a.arg in assume_defaults) and (is_simple(d) or (isinstance(d, ast.Name) and d.id in env0)):
+                    env0[a.arg] = self._res(d, env0)
+        self.env0 = env0
+        self.end_env = self._block(func.body, env0)
 
     # ------------------------------------------------------------------ analysis
     @staticmethod
@@ -58,16 +82,31 @@ class Flow:
             env = self._stmt(s, env)
         return env
 
+    _UFUNC_OPS = {'multiply': ast.Mult, 'add': ast.Add, 'subtract': ast.Sub, 'divide': ast.Div, 'true_divide': ast.Div,
+                  'bitwise_and': ast.BitAnd, 'bitwise_or': ast.BitOr, 'logical_and': ast.BitAnd, 'logical_or': ast.BitOr}
+
     def _stmt(self, s, env):
+        # np.multiply(t, e, out=t)  is  t *= e  (likewise add / subtract / divide / bitwise_and / bitwise_or)
+        if isinstance(s, ast.Expr) and isinstance(s.value, ast.Call) and isinstance(s.value.func, ast.Attribute) \
+                and isinstance(s.value.func.value, ast.Name) and s.value.func.value.id in ('np', 'numpy') and s.value.func.attr in self._UFUNC_OPS \
+                and len(s.value.args) == 2 and [k.arg for k in s.value.keywords] == ['out'] \
+                and ast.unparse(s.value.keywords[0].value) == ast.unparse(s.value.args[0]) \
+                and isinstance(s.value.args[0], (ast.Name, ast.Subscript, ast.Attribute)):
+            tgt = copy.deepcopy(s.value.args[0])
+            for n_ in ast.walk(tgt):
+                if hasattr(n_, 'ctx'):
+                    n_.ctx = ast.Load()
+            tgt.ctx = ast.Store()
+            s = ast.copy_location(ast.AugAssign(target=tgt, op=self._UFUNC_OPS[s.value.func.attr](), value=s.value.args[1]), s)
         self.env_before[id(s)] = dict(env)
         self.order.append(s)
         env = dict(env)
         if isinstance(s, ast.Expr) and isinstance(s.value, ast.Call) and self.inline is not None:
-            self._inline_call(s, self._res(s.value, env))
+            self._inline_call(s, self._res(s.value, env), env)
         if isinstance(s, ast.Assign):
             val = self._res(s.value, env)
             if isinstance(val, ast.Call) and self.inline is not None:
-                got = self._inline_call(s, val)
+                got = self._inline_call(s, val, env)
                 val = got if got is not None else val
             self.assigned[id(s)] = val
             for t in s.targets:
@@ -81,6 +120,18 @@ class Flow:
                     for n in ast.walk(t):
                         if isinstance(n, ast.Name) and isinstance(n.ctx, ast.Store):
                             env[n.id] = OPAQUE
+        elif isinstance(s, ast.Return) and s.value is not None and self.inline is not None:
+            val = self._res(s.value, env)
+            if isinstance(val, ast.Call):
+                got = self._inline_call(s, val, env)
+                val = got if got is not None else val
+            elif isinstance(val, ast.Tuple):
+                elts = []
+                for e in val.elts:
+                    got = self._inline_call(s, e, env) if isinstance(e, ast.Call) else None
+                    elts.append(got if got is not None else e)
+                val = ast.Tuple(elts=elts, ctx=ast.Load())
+            self.assigned[id(s)] = val
         elif isinstance(s, ast.AnnAssign):
             if isinstance(s.target, ast.Name):
                 env[s.target.id] = self._res(s.value, env) if s.value is not None else OPAQUE
@@ -145,12 +196,12 @@ class Flow:
                     env[n.target.id] = OPAQUE
         return env
 
-    def _inline_call(self, stmt, call):
+    def _inline_call(self, stmt, call, env=None):
         """look through a call of a helper function: returns the helper's resolved return value (arguments substituted) or None"""
         g = self.inline(call)
         if g is None or g is self.func:
             return None
-        sub = Flow(g, inline=self.inline, _depth=self._depth + 1)
+        sub = Flow(g, inline=self.inline, _depth=self._depth + 1, module=self.module)
         params = list(sub.params)
         bind = {}
         static = any(isinstance(d, ast.Name) and d.id == 'staticmethod' for d in g.decorator_list)
@@ -176,14 +227,19 @@ class Flow:
         if len(rets) > 1 or (rets and rets[0] is not g.body[-1]):
             return None
         mine = self.inlined_stores.setdefault(id(stmt), [])
-        self.inlined[id(stmt)] = (sub, bind)
+        self.inlined.setdefault(id(stmt), []).append((sub, bind))
         for (_s, tgt, kind, payload) in sub.stores():
             t2 = ast.unparse(self._res(ast.parse(tgt, mode='eval').body, bind))
             p2 = (payload[0], self._res(payload[1], bind)) if kind == 'aug' else self._res(payload, bind)
             mine.append((t2, kind, p2))
         if not rets or rets[0].value is None:
             return ast.Constant(value=None)
-        return self._res(sub.resolve(rets[0].value, rets[0]), bind)
+        r = sub.resolve(rets[0].value, rets[0])
+        if env is not None and any(g is n_ for n_ in ast.walk(self.func)):
+            # a closure defined inside this function: its free names mean what they mean here, at the call
+            local = set(sub.params) | self._assigned_names(g.body)
+            r = self._res(r, {k: v for k, v in env.items() if k not in local})
+        return self._res(r, bind)
 
     # ------------------------------------------------------------------ queries
     @staticmethod
@@ -203,7 +259,7 @@ class Flow:
             def visit_ListComp(self, n):
                 return n
             visit_SetComp = visit_DictComp = visit_GeneratorExp = visit_ListComp
-        return ast.fix_missing_locations(Sub().visit(copy.deepcopy(node)))
+        return ast.fix_missing_locations(simplify(Sub().visit(copy.deepcopy(node))))
 
     def stmt_of(self, node):
         """the flattened statement that contains `node`"""
@@ -232,7 +288,7 @@ class Flow:
 
     def value(self, stmt):
         """the resolved value an assignment statement assigns, helper calls looked through"""
-        return self.assigned.get(id(stmt), None) if id(stmt) in self.assigned else self.resolve(stmt.value, stmt)
+        return self.assigned[id(stmt)] if id(stmt) in self.assigned else self.resolve(stmt.value, stmt)
 
     def calls(self, match):
         """resolved Call nodes satisfying `match` (on the unresolved node), in source order, including those made inside looked-through
@@ -249,8 +305,7 @@ class Flow:
                 heads = []
             else:
                 heads = [s]
-            if id(s) in self.inlined:
-                sub, bind = self.inlined[id(s)]
+            for (sub, bind) in self.inlined.get(id(s), []):
                 out.extend(self._res(c, bind) for c in sub.calls(match))
             for h in heads:
                 for c in ast.walk(h):
@@ -309,7 +364,7 @@ class Flow:
         return out
 
 
-def helper_inliner(tree, cls=None, keep=(), allow_with=True):
+def helper_inliner(tree, cls=None, keep=(), allow_with=True, local_to=None, allow_loops=False):
     """an `inline` callback for Flow: look through calls of helper functions of the module and of methods of class `cls` (called on self / the
     class) whose bodies contain no loops / try / yield; `keep` names the functions a translator knows by name and wants to see as calls"""
     methods, funcs = {}, {}
@@ -318,7 +373,11 @@ def helper_inliner(tree, cls=None, keep=(), allow_with=True):
             methods = {f.name: f for f in node.body if isinstance(f, ast.FunctionDef)}
         if isinstance(node, ast.FunctionDef):
             funcs[node.name] = node
-    banned = (ast.For, ast.While, ast.Try, ast.Yield, ast.YieldFrom, ast.Lambda) + (() if allow_with else (ast.With,))
+    if local_to is not None:            # closures defined inside the analysed function
+        for node in ast.walk(local_to):
+            if isinstance(node, ast.FunctionDef) and node is not local_to:
+                funcs.setdefault(node.name, node)
+    banned = (ast.Try, ast.Yield, ast.YieldFrom, ast.Lambda) + (() if allow_with else (ast.With,)) + (() if allow_loops else (ast.For, ast.While))
 
     def simple(g):
         return not any(isinstance(n, banned) for n in ast.walk(g))
@@ -332,3 +391,94 @@ def helper_inliner(tree, cls=None, keep=(), allow_with=True):
             return funcs[fn.id]
         return None
     return inline
+
+
+# ---------------------------------------------------------------------------------------------- module-level knowledge and simplification
+def is_simple(n):
+    """a literal-like expression: constants, containers / dict() / tuple() of such, dotted names (enum members), signed numbers"""
+    if isinstance(n, ast.Constant):
+        return True
+    if isinstance(n, (ast.Tuple, ast.List, ast.Set)):
+        return all(is_simple(e) for e in n.elts)
+    if isinstance(n, ast.Dict):
+        return all(k is not None and is_simple(k) and is_simple(v) for k, v in zip(n.keys, n.values))
+    if isinstance(n, ast.UnaryOp) and isinstance(n.op, (ast.USub, ast.UAdd)):
+        return is_simple(n.operand)
+    if isinstance(n, ast.Attribute):
+        return is_simple(n.value) or isinstance(n.value, ast.Name)
+    if isinstance(n, ast.Call) and isinstance(n.func, ast.Name) and n.func.id in ('dict', 'tuple', 'list', 'frozenset', 'set'):
+        return all(is_simple(a) for a in n.args) and all(k.arg is not None and is_simple(k.value) for k in n.keywords)
+    return False
+
+
+def module_constants(tree):
+    """{name: value} of module-level `NAME = <simple expression>` assigned exactly once"""
+    seen, out = {}, {}
+    for node in tree.body:
+        tgts = node.targets if isinstance(node, ast.Assign) else [node.target] if isinstance(node, ast.AnnAssign) and node.value is not None else []
+        for t in tgts:
+            if isinstance(t, ast.Name):
+                seen[t.id] = seen.get(t.id, 0) + 1
+                if len(tgts) == 1 and is_simple(node.value):
+                    out[t.id] = node.value
+    return {k: v for k, v in out.items() if seen[k] == 1}
+
+
+def namedtuples(tree):
+    """{class name: [field, ...]} of the module's typing.NamedTuple classes (also nested in classes)"""
+    out = {}
+    for node in ast.walk(tree):
+        if isinstance(node, ast.ClassDef) and any(ast.unparse(b) in ('NamedTuple', 'typing.NamedTuple') for b in node.bases):
+            out[node.name] = [st.target.id for st in node.body if isinstance(st, ast.AnnAssign) and isinstance(st.target, ast.Name)]
+    return out
+
+
+_KNOWN_TUPLES = {}
+
+
+def simplify(node):
+    """spelling differences that mean the same, and projections that can be computed:
+    E.any() / E.all() / E.prod() -> np.any(E) ...; np.asarray -> np.array; .astype('int') -> .astype(int); (a, b)[0] -> a;
+    C(x=.., y=..).x -> the argument (C a NamedTuple of the module, or any call with keyword x); f(**C(..)._asdict()) -> f(x=.., y=..)"""
+    class S(ast.NodeTransformer):
+        def visit_Call(self, n):
+            n = self.generic_visit(n)
+            f = n.func
+            if isinstance(f, ast.Attribute) and f.attr in ('any', 'all', 'prod') and not n.args and not n.keywords \
+                    and not (isinstance(f.value, ast.Name) and f.value.id in ('np', 'numpy')):
+                return ast.Call(func=ast.Attribute(value=ast.Name(id='np', ctx=ast.Load()), attr=f.attr, ctx=ast.Load()), args=[f.value], keywords=[])
+            if isinstance(f, ast.Attribute) and isinstance(f.value, ast.Name) and f.value.id == 'np' and f.attr in ('asarray', 'asanyarray'):
+                n.func = ast.Attribute(value=f.value, attr='array', ctx=ast.Load())
+            if isinstance(f, ast.Attribute) and f.attr == 'astype' and n.args and isinstance(n.args[0], ast.Constant) and n.args[0].value in ('int', 'bool', 'float'):
+                n.args[0] = ast.Name(id=n.args[0].value, ctx=ast.Load())
+            kws = []
+            for k in n.keywords:
+                v = k.value
+                if k.arg is None and isinstance(v, ast.Call) and isinstance(v.func, ast.Attribute) and v.func.attr == '_asdict' and not v.args \
+                        and isinstance(v.func.value, ast.Call) and not v.func.value.args and all(kk.arg is not None for kk in v.func.value.keywords):
+                    kws.extend(ast.keyword(arg=kk.arg, value=kk.value) for kk in v.func.value.keywords)
+                else:
+                    kws.append(k)
+            n.keywords = kws
+            return n
+
+        def visit_Attribute(self, n):
+            n = self.generic_visit(n)
+            v = n.value
+            if isinstance(v, ast.Call) and isinstance(v.func, ast.Name) and v.func.id[:1] in '_ABCDEFGHIJKLMNOPQRSTUVWXYZ':
+                for k in v.keywords:
+                    if k.arg == n.attr:
+                        return k.value
+                fields = _KNOWN_TUPLES.get(v.func.id)
+                if fields and n.attr in fields and fields.index(n.attr) < len(v.args):
+                    return v.args[fields.index(n.attr)]
+            return n
+
+        def visit_Subscript(self, n):
+            n = self.generic_visit(n)
+            if isinstance(n.value, (ast.Tuple, ast.List)) and isinstance(n.slice, ast.Constant) and isinstance(n.slice.value, int) \
+                    and not isinstance(n.slice.value, bool) and -len(n.value.elts) <= n.slice.value < len(n.value.elts) \
+                    and not any(isinstance(e, ast.Starred) for e in n.value.elts):
+                return n.value.elts[n.slice.value]
+            return n
+    return S().visit(node)
